@@ -445,7 +445,8 @@ class BlochSphereRotation(Gate):
 
     def __eq__(self, other: object) -> bool:
         if not isinstance(other, BlochSphereRotation):
-            return False
+            # Gates of other kinds are compared through their operation, as they do when they are on the left.
+            return Gate.__eq__(self, other)
 
         if self.qubit != other.qubit:
             return False
